@@ -80,6 +80,7 @@ func diffTr(a, b []string) string {
 // pools, and no data race occurs.
 func C19(r *eng.Run) {
 	r.SetEntry("sessions")
+	raceReports() // reports left unread by a run that stopped at an earlier violation are not ours
 	n := 2 + r.T.Int(sim.LSess, 7)
 	if r.Tier == "thorough" && r.T.Chance(sim.LSess, 1, 8) {
 		n = 9 + r.T.Int(sim.LSess, 3)
@@ -113,7 +114,10 @@ func C19(r *eng.Run) {
 		alone, sst := runSessions(r, []*script{sc}, stick, segMode)
 		r.Res.Steps += sst.steps
 		if sst.deadlocks > 0 || sst.hang {
-			r.Internalf("session %d alone deadlocked (script not confluent?): client %v server %v", i, alone[0].cli.lines, alone[0].srv.lines)
+			// On the unchanged tree every script completes alone (they are
+			// confluent by construction); a session that cannot even finish
+			// alone is reported, not swallowed.
+			r.Failf("session_alone_fails", "session %d does not complete when run alone: client %v server %v", i, alone[0].cli.lines, alone[0].srv.lines)
 		}
 		checkPoolFaults(r, "solo run")
 		for _, l := range append(append([]string(nil), alone[0].cli.lines...), alone[0].srv.lines...) {
